@@ -65,3 +65,12 @@ package fasthttp
 //@ func workerPool.getMaxIdleWorkerDuration
 //@   trusted
 //@   pure
+
+// clean: the idle workers that are told to stop (the i+1 least recently used ones) are exactly the ones taken off the
+// ready list -- nothing retired stays listed as idle, nothing still idle is dropped.
+//@ func workerPool.clean
+//@   property C13
+//@   mode skeleton
+//@   nooverflow
+//@   loop 2:
+//@     invariant[retired-leave-ready] m + len(deref(scratch)) == n && m <= i
